@@ -838,11 +838,15 @@ func (r Stack) Reset() {
 reset is a private method called by [Stack.Reset].
 */
 func (r *stack) reset() {
-	var ct int = 0
-	for i := r.ulen(); i > 0; i-- {
-		ct++
-		r.remove(i - 1)
+	r.lock()
+	defer r.unlock()
+
+	// nil slices cannot be addressed through remove,
+	// so truncate down to the configuration slice.
+	for i := 1; i < r.len(); i++ {
+		(*r)[i] = nil
 	}
+	*r = (*r)[:1]
 }
 
 /*
